@@ -269,3 +269,11 @@ impl Var {
         Ok(())
     }
 }
+
+#[cfg(feature = "verif-hooks")]
+impl Var {
+    /// Number of stored (non-default) values. Read-only probe for /verif.
+    pub fn verif_len(&self) -> usize {
+        self.vars.len()
+    }
+}
